@@ -28,7 +28,10 @@ class VirtualClock:
         return self.t / UNIT
 
     def time(self):
-        return self.t / UNIT
+        # the wall clock: unrelated to the monotonic clock and stepping back and forth by an hour (NTP, DST, somebody
+        # setting the date); tbot's deadlines must not depend on it.  The code under test does not look at it at all.
+        self.wall_calls = getattr(self, "wall_calls", 0) + 1
+        return 1.7e9 + self.t / UNIT + (3600.0 if self.wall_calls % 2 == 0 else 0.0)
 
     def sleep(self, d):
         u = d * UNIT
